@@ -730,6 +730,14 @@ func TestC12Restart(t *testing.T) {
 		if !s.LocalAddr().Equal(us) || !s.RemoteAddr().Equal(them) {
 			fail("after negotiation LocalAddr=%s RemoteAddr=%s, want %s / %s", s.LocalAddr(), s.RemoteAddr(), us, them)
 		}
+		// what the session reports about its two streams is what the headers said
+		in, outInfo := s.In(), s.Out()
+		if in.ID != id2 || !in.From.Equal(them) || !in.To.Equal(us) || in.XMLNS != ns {
+			fail("In() reports id=%q from=%s to=%s xmlns=%q; the peer's last header said id=%q from=%s to=%s xmlns=%q", in.ID, in.From, in.To, in.XMLNS, id2, them, us, ns)
+		}
+		if !outInfo.To.Equal(them) || !outInfo.From.Equal(us) || outInfo.XMLNS != ns {
+			fail("Out() reports to=%s from=%s xmlns=%q; our headers named to=%s from=%s xmlns=%q", outInfo.To, outInfo.From, outInfo.XMLNS, them, us, ns)
+		}
 		// both headers the library sent must name the peer and us
 		out := peer.Conn.Output()
 		for i, part := range bytes.Split(out, []byte("<?xml"))[1:] {
